@@ -542,8 +542,34 @@ def r29(body):
     return out, c
 
 
+@rule("R30", "let mut I = V[R].iter(); let F = |P: &T| B; match D { A => I.all(F), Z => I.rev().all(F) } -> let vx_sl = V.index(R); match D { A => <index loop 0..len with early exit>, Z => <index loop len..0 with early exit> }   [`V[R]` is `*Index::index(&V, R)`; Iterator::all stops at the first false; the closure body B is inlined; side condition: I and F are not used elsewhere]")
+def r30(body):
+    pat = re.compile(
+        r"let\s+mut\s+(?P<it>\w+)\s*=\s*(?P<recv>(?:self\s*\.\s*)?\w+(?:\s*\.\s*\w+)*)\s*\[\s*(?P<rng>\w+)\s*\]\s*\.\s*iter\s*\(\s*\)\s*;\s*"
+        r"let\s+(?P<f>\w+)\s*=\s*\|\s*(?P<p>\w+)\s*:\s*&[^|]+\|\s*(?P<b>[^;{}]+?)\s*;\s*"
+        r"match\s+(?P<d>\w+)\s*\{\s*(?P<a1>[\w:]+)\s*=>\s*(?P=it)\s*\.\s*all\s*\(\s*(?P=f)\s*\)\s*,\s*"
+        r"(?P<a2>[\w:]+)\s*=>\s*(?P=it)\s*\.\s*rev\s*\(\s*\)\s*\.\s*all\s*\(\s*(?P=f)\s*\)\s*,?\s*\}", re.S)
+    m = pat.search(body)
+    if not m:
+        return body, 0
+    rest = body[:m.start()] + body[m.end():]
+    if re.search(r"\b%s\b" % m.group("it"), rest) or re.search(r"\b%s\b" % m.group("f"), rest):
+        return body, 0
+    b = " ".join(m.group("b").split())
+    recv = "".join(m.group("recv").split())
+    new = ("let vx_sl = %s.index(%s); match %s {\n"
+           "%s => { let mut vx_k: usize = 0; let mut vx_all = true; while vx_k < vx_sl.len() {\n"
+           "let %s = &vx_sl[vx_k]; if !(%s) { vx_all = false; break; } vx_k += 1; } vx_all },\n"
+           "%s => { let mut vx_k: usize = vx_sl.len(); let mut vx_all = true; while vx_k > 0 { vx_k -= 1;\n"
+           "let %s = &vx_sl[vx_k]; if !(%s) { vx_all = false; break; } } vx_all }, }"
+           % (recv, m.group("rng"), m.group("d"), m.group("a1"), m.group("p"), b, m.group("a2"), m.group("p"), b))
+    if new.count("\n") > m.group(0).count("\n"):
+        new = new.replace("\n", " ")
+    return body[:m.start()] + _pad(m.group(0), new) + body[m.end():], 1
+
+
 # rules that are purely syntactic proof devices are applied only when a unit asks for them
-OPT_IN = {"R9", "R9b", "R15", "R17", "R21", "R22", "R24", "R25", "R25b", "R26", "R28"}
+OPT_IN = {"R9", "R9b", "R15", "R17", "R21", "R22", "R24", "R25", "R25b", "R26", "R28", "R30"}
 # std-definition rules that may fire in any extracted function without being declared by the unit (they are logged)
 FREE = {"R27", "R29"}
 
